@@ -906,7 +906,7 @@ def build_model_map():
         if n in heavy or n.endswith("Bip32.FromSeed") or n.endswith("Bip32.FromSeedAndPath") or n.startswith("Bip32KholawEd25519.FromSeed"):
             MM[n].cap = (10, 150)
         else:
-            MM[n].cap = MM[n].cap or (60, 600)
+            MM[n].cap = MM[n].cap or (50, 600)
     for n in MM:
         assert n in ENTRIES, "MODEL_MAP names an entry point that is not in the census: " + n
 
@@ -1076,7 +1076,7 @@ def generate(ctx):
     only = os.environ.get("VERIF_ONLY")
     names = sorted(n for n in ENTRIES if not only or any(o in n for o in only.split(",")))
     per = ctx.n(10, 600)
-    mcap0 = ctx.n(160, 900)         # model comparisons per entry point beyond the junk list and the seeds (default)
+    mcap0 = ctx.n(140, 900)         # model comparisons per entry point beyond the junk list and the seeds (default)
     n_model = 0
     truncated = []
     for name in names:
